@@ -79,7 +79,7 @@ def tie(ctx):
 
     def viol(i, why, extra):
         violations.append({"tag": "oracle", "signature": None, "header": {"kind": "input", "what": why},
-                           "body": [enc_lines[i][:2000]] + extra})
+                           "body": [enc_lines[i]] + extra})
 
     second = []       # model-side lines: unframe + sdec of what the library wrote; stz of what the Spec wrote
     idx = []
@@ -103,7 +103,8 @@ def tie(ctx):
             stats["both_reject"] += 1
             continue
         if len(ht) < 3 or ht[1] == "UNFRAMED":
-            viol(i, "blob is not a 4-byte length + one complete zlib stream of that length", ["impl: " + h[:300]])
+            viol(i, "blob is not a 4-byte length + one complete zlib stream of that length " +
+                 cd.size_note(k, ht[2] if len(ht) > 2 else ""), ["impl: " + h[:300]])
             continue
         payload_h, blob_h = ht[1], ht[2]
         if payload_h != st[1]:
@@ -159,7 +160,7 @@ def tie(ctx):
             want = "ok " + cd.expected_readback(k, v)
             if hd[j] != want:
                 viol(i, "the library decodes the independent encoder's blob to a different value",
-                     [decz_lines[j][:800], "impl: " + hd[j][:400], "want: " + want[:400]])
+                     [decz_lines[j], "impl: " + hd[j][:400], "want: " + want[:400]])
             elif cd.nontrivial(k, v):
                 distinct.add(enc_lines[i])
     # witness of C02_v1_beat_decode_agrees_counterexample (Properties/C02.lean `beatMissingSecondGrid`): header, one
@@ -187,5 +188,8 @@ def tie(ctx):
         "samples": [enc_lines[0][:200], enc_lines[n // 2][:200], (decz_lines or ["-"])[0][:200]],
         "histograms": hist,
         "divergences": divergences[:20],
-        "violations": violations[:8],
+        "violations": cd.diverse(violations),
     }
+
+
+replay = cd.replay
